@@ -95,6 +95,10 @@ def gen_cases(rng, n, ncpu, thorough):
         elif k < 0.66: spec = rng.choice(('display:flat', 'display:hwloc'))
         else: spec = rng.choice(malformed)
         out.append(Case('g%04d' % i, spec, cores(), cpuset()))
+    # ---- every fallback path of the parser is visited in every run (not left to the random draw): unopenable map files,
+    #      empty and unparsable specifications must all end in a usable (flat) context
+    for j, spec in enumerate(['file:', 'file:/nonexistent/map', 'display:file:/nonexistent', '', 'bogus', 'rr:', 'rr:2:x:4', 'display:bogus']):
+        out.append(Case('m%02d' % j, spec, rng.choice((0, 2, 4)), None))
     # ---- forms that are known not to work on the unchanged tree: kept at low weight (a handful of processes), every parser entry point visited
     nrr = 6 if thorough else 2
     for i in range(nrr):
